@@ -21,10 +21,10 @@ LEVEL = 'proof'
 
 MIXED = 'from other import of\n\n\ndef mx(x):\n    return of(x) + 1\n'
 KLASS = ('class HK2:\n    def plain(self, x):\n        return x\n\n    @staticmethod\n    def st(x):\n        return x\n\n    @classmethod\n    def cl(cls, x):\n        return x\n\n'
-         '    @property\n    def pr(self):\n        return 1\n\n\ndef kfree(x):\n    return x\n')
+         '    @property\n    def pr(self):\n        return 1\n\n\ndef kfree(x):\n    return x\n\n\ndef pyth(x):\n    return x * x\n')     # a name whose dotted selection ends like a file name (`klass.pyth`)
 SELECTIONS = [['helper'], ['PATH:helper.py'], ['pkgk'], ['PATH:pkgk'], ['pkgk.sib'], ['pkgk.sub'], ['helper.hf'], ['helper.HK'], ['other'], ['helper,other'],
-              ['helper', 'pkgk.sub.deep'], ['mixed'], ['klass'], ['klass.HK2'], ['PATH:prog.py'], ['nosuchmod'], ['PATH:does/not/exist.py'], ['pkgkx'], ['pk'], ['helpe'], ['pkg']]
-EXTRA_IMPORTS = [('import mixed', 'mixed.mx(1)'), ('from mixed import mx', 'mx(2)'), ('import klass', 'klass.kfree(1)'), ('from klass import HK2', 'HK2().plain(1)')]
+              ['helper', 'pkgk.sub.deep'], ['mixed'], ['klass'], ['klass.HK2'], ['klass.pyth'], ['klass.kfree,klass.pyth'], ['PATH:prog.py'], ['nosuchmod'], ['PATH:does/not/exist.py'], ['pkgkx'], ['pk'], ['helpe'], ['pkg']]
+EXTRA_IMPORTS = [('import mixed', 'mixed.mx(1)'), ('from mixed import mx', 'mx(2)'), ('import klass', 'klass.kfree(1)'), ('from klass import HK2', 'HK2().plain(1)'), ('from klass import pyth, kfree as kf2', 'pyth(3) + kf2(1)')]
 
 
 def defs_in(text):
@@ -212,6 +212,16 @@ def run(ctx):
                          {'finding_class': cls, 'prof_mod': c['prof_mod'], 'names_to_profile': sorted(got), 'modules_below_the_selection': sorted(below | {name}),
                           'missing': sorted(missing), 'unexpected': sorted(extra)})
                 break
+    # ---- every selection given as a dotted name (module, package, class or function; resolvable or not) is among the names to profile
+    for c, r in zip(cases, rex):
+        if 'M' not in r:
+            continue
+        dotted = [x for sel in c['prof_mod'] if not sel.startswith('PATH:') for x in sel.split(',') if '/' not in x and not x.endswith('.py')]
+        lost = [x for x in dotted if x not in r['M']]
+        if lost:
+            ctx.fail('a selection given as a dotted name is not among the names to profile',
+                     {'finding_class': None, 'prof_mod': c['prof_mod'], 'dropped': lost, 'names_to_profile': sorted(r['M'])})
+            break
     kdiff = 0
     if getattr(ctx, 'driver_ok', True):
         lines = []
